@@ -16,6 +16,7 @@ import (
 	"github.com/Oudwins/zog/parsers/zjson"
 
 	z "github.com/Oudwins/zog"
+	"github.com/Oudwins/zog/conf"
 
 	"verif/harness/internal/eng"
 	"verif/harness/internal/rng"
@@ -270,6 +271,7 @@ func d32Probe() bool {
 func streamCoerce(seed uint64, n int, driver string) (*Summary, error) {
 	sum := newSummary("coerce", seed)
 	sum.Rule = "grid: 5 numeric kinds x (every Go integer kind at +-2^k+-1 for k in {7,15,24,31,32,53,62}, float64/float32 at +-2^k and neighbours, NaN/Inf/-0/subnormals, 50 string forms) + bool/string/time tables (exhaustive over the grid) + random floats/decimal-exponent strings; non-trivial = the value is present (not nil/blank); distinct = distinct (kind, layout, value)"
+	globalOverrideProbe(sum)
 	r := rng.New(seed)
 	cases := coerceGrid(r, n)
 	lines := make([]string, len(cases))
@@ -348,4 +350,46 @@ func streamCoerce(seed uint64, n int, driver string) (*Summary, error) {
 	}
 	_ = z.Int
 	return sum, nil
+}
+
+// globalOverrideProbe (C03): the documented way to change coercion for every schema is to assign conf.Coercers.X.
+// With an override installed that maps EVERY input to a marker value, every schema kind built afterwards — the
+// adapters Int32 / Int64 / Float32 included, at top level, in structs, slices and behind pointers — must store
+// the override's result (converted to the destination type) and report no issue.
+func globalOverrideProbe(sum *Summary) {
+	saved := conf.Coercers
+	defer func() { conf.Coercers = saved }()
+	conf.Coercers.Int = func(any) (any, error) { return 77, nil }
+	conf.Coercers.Float64 = func(any) (any, error) { return 1500.0, nil }
+	conf.Coercers.String = func(any) (any, error) { return "OVR", nil }
+	conf.Coercers.Bool = func(any) (any, error) { return true, nil }
+	mark := time.Unix(424242, 0).UTC()
+	conf.Coercers.Time = func(any) (any, error) { return mark, nil }
+	type rec struct {
+		I   int
+		I32 int32
+		I64 int64
+		F   float64
+		F32 float32
+		S   string
+		B   bool
+		T   time.Time
+		L   []float32
+		P   *int32
+	}
+	schema := z.Struct(z.Schema{"i": z.Int(), "i32": z.Int32(), "i64": z.Int64(), "f": z.Float64(), "f32": z.Float32(), "s": z.String(), "b": z.Bool(), "t": z.Time(),
+		"l": z.Slice(z.Float32()), "p": z.Ptr(z.Int32())})
+	in := map[string]any{"i": "zz", "i32": "zz", "i64": "zz", "f": "zz", "f32": "zz", "s": 5, "b": "zz", "t": "zz", "l": []any{"zz", "1.5"}, "p": "zz"}
+	var d rec
+	sum.Evaluations++
+	errs := schema.Parse(in, &d)
+	want := rec{I: 77, I32: 77, I64: 77, F: 1500, F32: 1500, S: "OVR", B: true, T: mark, L: []float32{1500, 1500}}
+	p32 := int32(77)
+	okPtr := d.P != nil && *d.P == p32
+	got := d
+	got.P = nil
+	if len(errs) != 0 || !reflect.DeepEqual(got, want) || !okPtr {
+		sum.addViolation("C03", Mismatch{Case: "conf.Coercers.{Int,Float64,String,Bool,Time} replaced by functions returning 77 / 1500 / OVR / true / a fixed time; Struct{Int, Int32, Int64, Float64, Float32, String, Bool, Time, Slice(Float32), Ptr(Int32)} built afterwards and parsed",
+			What: fmt.Sprintf("a schema did not use the installed global coercer: issues %v, destination %+v (pointer ok: %v), want %+v", errs, got, okPtr, want)})
+	}
 }
